@@ -1,6 +1,7 @@
 import Pose.Wire
 import Pose.Driver.Lie
 import Pose.Model.LogExp
+import Pose.Model.LieDispatch
 /-!
 # Driver ops for C02 (Log is the principal inverse of Exp)
 
@@ -12,6 +13,21 @@ namespace PP.Driver
 open PP Wire
 
 def nat1 (n : Nat) : List B := [BigF.ofNat n]
+
+/-- `lie.<op> <ltype> <dtype> <rank> <extents…> <numbers…>` → `<ltype'> <rank'> <extents'…> <numbers…>` or `err <kind>` -/
+def lieOp (f : LType → DType → List Nat → List B → Except String (LType × List Nat × List B)) : Handler := fun ts =>
+  match ts with
+  | tn :: dn :: rk :: rest => do
+      let t ← match LType.ofName tn with | some t => pure t | none => throw s!"bad-ltype:{tn}"
+      let d ← match DType.ofName dn with | some d => pure d | none => throw s!"bad-dtype:{dn}"
+      let r ← nat rk
+      let (dims, numToks) ← take r rest
+      let shape ← nats dims
+      let xs ← nums numToks
+      let (t', shape', ys) ← f t d shape xs
+      let head := t'.name :: toString shape'.length :: shape'.map toString
+      return " ".intercalate (head ++ ys.map BigF.toWire)
+  | _ => throw "arity"
 
 def opsC02 : List (String × Handler) := [
   -- Exp ∘ Log
@@ -38,6 +54,20 @@ def opsC02 : List (String × Handler) := [
   ("SO3.LogRegime", withEps 4 fun e l => nat1 (so3LogRegime e (qt l))),
   ("rxso3.WsRegime", withEps 2 fun e l => nat1 (rxso3WsRegime e (l.getD 0 default) (l.getD 1 default))),
   ("Sim3.LogDet", withEps 8 fun e l => [sim3LogDet e (toSim l)]),
+  -- glue: dispatch / shapes / dtype threshold (Pose/Model/LieDispatch.lean)
+  ("lie.Log", lieOp fun t d sh xs => lieLogD t d sh xs),
+  ("lie.Exp", lieOp fun t d sh xs => lieExpD t d sh xs),
+  ("lie.Inv", lieOp fun t _ sh xs => lieInv t sh xs),
+  ("dtype.eps", fun ts => match ts with
+      | [dn] => match DType.ofName dn with
+          | some d => .ok (BigF.toWire (d.eps : B))
+          | none => .error s!"bad-dtype:{dn}"
+      | _ => .error "arity"),
+  ("ltype.table", fun ts => match ts with
+      | [tn] => match LType.ofName tn with
+          | some t => .ok (fmtNats [t.dimension, t.embedding, t.manifold, if t.onManifold then 1 else 0])
+          | none => .error s!"bad-ltype:{tn}"
+      | _ => .error "arity"),
   ("rxso3.WsInv", withEps 4 fun e l => (rxso3Ws e (torx l)).inv.toList)
 ]
 
